@@ -669,6 +669,8 @@ def op_expressions(ex, tier):
                             aliases.append('b')
                         if ak == 'ext':
                             aliases.append('buf(a)')
+                            # a vector of ANOTHER dimension bound to the start of a's user buffer: same address, other size
+                            aliases.append('buf(a)/dim%d' % (5 - d))
                             if cats[0] == 'l':
                                 aliases.append('view(v)')
                         for tgt in [('obj',) + t for t in targets] + [('alias', x) for x in aliases]:
@@ -780,6 +782,10 @@ def setup_expr(ex, w, shape, W, d, ak, bk, tgt):
             o = Obj(SUV, None, 'v')
             for k in ('dim', 'size', 'components', 'ptr_offset', 'isinit', 'isinit_d'):
                 o.field(k).value = a.value.fields[k].value
+            if '/dim' in tgt[1]:
+                od = int(tgt[1].split('/dim')[1])
+                o.field('dim').value = od
+                o.field('size').value = od * od
             v = Cell(o, None, 0, 'v')
             live.append(('v', v))
         tinfo = 'alias:' + tgt[1]
